@@ -5,6 +5,7 @@ import Driver.OpsRoads
 import Driver.OpsAlloc
 import Driver.OpsFn
 import Driver.OpsFnGen
+import Driver.OpsFnGen2
 import Driver.OpsC03
 import Driver.OpsSym
 import Driver.OpsBot
@@ -27,6 +28,7 @@ def handlers : List Handler := [
   handleAlloc,
   handleFn,
   handleFnGen,
+  handleFnGen2,
   handleC03,
   handleSym,
   handleEval,
